@@ -30,7 +30,7 @@ import (
 )
 
 var st = stat.New("C07",
-	"Case = {maximum packet length M in {4,5,16,64,1024,65536,10 MiB default}, 1..24 streams (server side: run concurrently because the server's teardown polls a 500 ms ticker; client side: sequential), each stream = 0..40 length-prefixed packets with body lengths around {0,1,M-5,M-4} and random, optionally one illegal header (length 0..3 or > M, up to 2^32-1) at a random position, optionally a truncated last packet, a generated partition of the byte stream into chunks (single bytes, header-splitting cuts, many packets per chunk, sizes around the 4096-byte read buffer) and read-timeout errors between chunks}. Oracle: packets handed to ServerProtocol.Invoke / ClientProtocol.Recv == model 'split by length prefixes up to the first illegal header': each once, complete, byte-identical (order checked through sequence numbers at recognition time; hand-over is concurrent by design); nothing after an illegal header; connection closed after an illegal header; exactly M accepted, M+1 rejected; plus protocol.TarsRequest against its 4-line specification on generated buffers. Non-trivial = stream with a packet split across >=3 chunks and a chunk containing >=2 packet boundaries, or an illegal header after >=1 legal packet. Distinct = distinct case JSON.",
+	"Case = {maximum packet length M in {4,5,16,64,1024,65536,10 MiB default}, 1..24 streams (server side: run concurrently because the server's teardown polls a 500 ms ticker; client side: sequential), each stream = 0..40 length-prefixed packets with body lengths around {0,1,M-5,M-4} and random, optionally one illegal header (length 0..3 or > M, up to 2^32-1) at a random position, optionally a truncated last packet, a generated partition of the byte stream into chunks (single bytes, header-splitting cuts, many packets per chunk, sizes around the 4096-byte read buffer; in a sixth of the streams the stream length and every chunk are multiples of the read buffer, so that every read including the last fills it) and read-timeout errors between chunks}. Oracle: packets handed to ServerProtocol.Invoke / ClientProtocol.Recv == model 'split by length prefixes up to the first illegal header': each once, complete, byte-identical (order checked through sequence numbers at recognition time; hand-over is concurrent by design); nothing after an illegal header; connection closed after an illegal header; exactly M accepted, M+1 rejected; plus protocol.TarsRequest against its 4-line specification on generated buffers. Non-trivial = stream with a packet split across >=3 chunks and a chunk containing >=2 packet boundaries, or an illegal header after >=1 legal packet. Distinct = distinct case JSON.",
 	"the receive loops are entered through overlay accessors (transport.VerifServeConn / VerifClientRecv) with a fake net.Conn; socket-level behaviour is exercised by C10/C08",
 	"protocol.SetMaxPackageLength is process-global, so all streams of a case share M")
 
@@ -169,7 +169,9 @@ type Stream struct {
 	IllLen    uint32 `json:"illegal_len"`
 	TruncLast int    `json:"trunc_last"` // bytes cut off the end of the stream (0: complete)
 	Cuts      []int  `json:"cuts"`       // chunk sizes; remainder in one chunk
-	Timeouts  []int  `json:"timeouts"`   // chunk indices before which a read timeout is reported
+	// Aligned: the stream length and all chunk sizes are multiples of the 4096-byte read buffer
+	Aligned  bool  `json:"aligned,omitempty"`
+	Timeouts []int `json:"timeouts"` // chunk indices before which a read timeout is reported
 	// ShutdownAt > 0 (server side): a graceful shutdown reaches the server when the receive
 	// loop is about to read chunk number ShutdownAt; the connection keeps being drained, and
 	// read timeouts after that moment are only scripted while a packet is half received (an
@@ -427,6 +429,26 @@ func drawStream(rt *rapid.T, M int) Stream {
 	}
 	s.Cuts = rapid.SliceOfN(rapid.OneOf(rapid.IntRange(1, 9), rapid.SampledFrom([]int{1, 1, 2, 3, 4, 5, 4095, 4096, 4097, 8192, 100000}), rapid.IntRange(1, 3000)), 0, 60).Draw(rt, "cuts")
 	s.Timeouts = rapid.SliceOfN(rapid.IntRange(0, 30), 0, 4).Draw(rt, "timeouts")
+	if rapid.IntRange(0, 5).Draw(rt, "aligned") == 0 && s.Illegal < 0 {
+		// the stream ends exactly on a multiple of the 4096-byte read buffer and arrives in
+		// chunks that are multiples of it: every read, the last one included, fills the buffer
+		sum := 0
+		for _, l := range s.BodyLens {
+			sum += 4 + l
+		}
+		pad := (4096 - sum%4096) % 4096
+		if pad > 0 && pad < 4 {
+			pad += 4096
+		}
+		if pad == 0 || pad-4 <= maxBody {
+			if pad > 0 {
+				s.BodyLens = append(s.BodyLens, pad-4)
+			}
+			s.TruncLast = 0
+			s.Cuts = rapid.SliceOfN(rapid.SampledFrom([]int{4096, 4096, 8192, 12288}), 0, 6).Draw(rt, "alignedCuts")
+			s.Aligned = true
+		}
+	}
 	return s
 }
 
@@ -634,6 +656,9 @@ func TestC07(t *testing.T) {
 			}
 			if s.Illegal >= 0 {
 				cls = append(cls, "stream-with-illegal-header")
+			}
+			if s.Aligned {
+				cls = append(cls, "stream-aligned-to-read-buffer")
 			}
 			if len(s.Timeouts) > 0 {
 				cls = append(cls, "stream-with-read-timeouts")
